@@ -55,26 +55,29 @@ Definition target_method_extra : list (N * list N) := [(19, [])].
 Fixpoint assoc_N (t : N) (l : list (N * N)) : option N :=
   match l with [] => None | (k, v) :: r => if k =? t then Some v else assoc_N t r end.
 
-(* element_value with k further levels of annotation / array nesting allowed *)
+(* element_value; [nest]: may annotations and arrays occur here, [inner]: the element values inside them *)
+Definition ev_tag_ok (nest : bool) (_ : bool) (t : N) : bool :=
+  match assoc_N t ev_consts with
+  | Some _ => true
+  | None => (t =? ev_enum_tag) || (t =? ev_class_tag) || (nest && ((t =? ev_annot_tag) || (t =? ev_array_tag)))
+  end.
+Definition ev_sel (inner : option fmt) (t : N) : fmt :=
+  match assoc_N t ev_consts with
+  | Some a => FIdx a
+  | None =>
+    if t =? ev_enum_tag then FSeq [FIdx 8; FIdx 8]
+    else if t =? ev_class_tag then FIdx 8
+    else match inner with
+         | None => FSeq []
+         | Some f => if t =? ev_annot_tag then FSeq [FIdx 8; FVec16 (FSeq [FIdx 8; f])] else FVec16 f
+         end
+  end.
+(* with k further levels of annotation / array nesting allowed *)
 Fixpoint ev_fmt (k : nat) : fmt :=
-  FTag (fun _ t =>
-          match assoc_N t ev_consts with
-          | Some _ => true
-          | None => (t =? ev_enum_tag) || (t =? ev_class_tag)
-                    || match k with O => false | S _ => (t =? ev_annot_tag) || (t =? ev_array_tag) end
-          end)
-       (fun t =>
-          match assoc_N t ev_consts with
-          | Some a => FIdx a
-          | None =>
-            if t =? ev_enum_tag then FSeq [FIdx 8; FIdx 8]
-            else if t =? ev_class_tag then FIdx 8
-            else match k with
-                 | O => FSeq []
-                 | S k' => if t =? ev_annot_tag then FSeq [FIdx 8; FVec16 (FSeq [FIdx 8; ev_fmt k'])]
-                           else FVec16 (ev_fmt k')
-                 end
-          end).
+  match k with
+  | O => FTag (ev_tag_ok false) (ev_sel None)
+  | S k' => FTag (ev_tag_ok true) (ev_sel (Some (ev_fmt k')))
+  end.
 Definition pairs_fmt : fmt := FVec16 (FSeq [FIdx 8; ev_fmt max_ev_nesting]).
 Definition annotation_fmt : fmt := FSeq [FIdx 8; pairs_fmt].
 Definition annotations_fmt : fmt := FVec16 annotation_fmt.
@@ -117,27 +120,27 @@ Definition code_fmt : fmt := FSeq [FU16; FU16; FBytes32; f_exception_table; FVec
 
 Definition field_sel (name : str) (len : N) : fmt :=
   pick name
-    ([(a_Deprecated, FSeq []); (a_Synthetic, FSeq []); (a_ConstantValue, FIdx 7); (a_Signature, FIdx 8)]
+    ([(a_Deprecated, FSeq []); (a_Synthetic, FSeq []); (a_ConstantValue, f_ConstantValue); (a_Signature, f_Signature)]
      ++ ann_rows (target_fmt target_field_tbl []))
     (FBytes len).
 Definition method_sel (name : str) (len : N) : fmt :=
   pick name
     ([(a_Deprecated, FSeq []); (a_Synthetic, FSeq []); (a_Code, code_fmt); (a_Exceptions, f_Exceptions);
-      (a_Signature, FIdx 8)]
+      (a_Signature, f_Signature)]
      ++ ann_rows (target_fmt target_method_tbl target_method_extra)
      ++ [(a_RuntimeVisibleParameterAnnotations, FSkip len); (a_RuntimeInvisibleParameterAnnotations, FSkip len);
          (a_AnnotationDefault, ev_fmt max_ev_nesting); (a_MethodParameters, f_MethodParameters)])
     (FBytes len).
 Definition record_sel (name : str) (len : N) : fmt :=
-  pick name ((a_Signature, FIdx 8) :: ann_rows (target_fmt target_field_tbl [])) (FBytes len).
+  pick name ((a_Signature, f_Signature) :: ann_rows (target_fmt target_field_tbl [])) (FBytes len).
 Definition class_sel (name : str) (len : N) : fmt :=
   pick name
     ([(a_Deprecated, FSeq []); (a_Synthetic, FSeq []); (a_InnerClasses, f_InnerClasses);
-      (a_EnclosingMethod, f_EnclosingMethod); (a_Signature, FIdx 8); (a_SourceFile, FIdx 8);
-      (a_SourceDebugExtension, FMutf8 len)]
+      (a_EnclosingMethod, f_EnclosingMethod); (a_Signature, f_Signature); (a_SourceFile, f_SourceFile);
+      (a_SourceDebugExtension, f_SourceDebugExtension len)]
      ++ ann_rows (target_fmt target_class_tbl [])
-     ++ [(a_Module, f_Module); (a_ModulePackages, f_ModulePackages); (a_ModuleMainClass, FIdx 6);
-         (a_NestHost, FIdx 6); (a_NestMembers, f_NestMembers); (a_PermittedSubclasses, f_PermittedSubclasses);
+     ++ [(a_Module, f_Module); (a_ModulePackages, f_ModulePackages); (a_ModuleMainClass, f_ModuleMainClass);
+         (a_NestHost, f_NestHost); (a_NestMembers, f_NestMembers); (a_PermittedSubclasses, f_PermittedSubclasses);
          (a_Record, FVec16 (FSeq [FIdx 8; FIdx 8; FVec16 (FAttr record_sel)]));
          (a_BootstrapMethods, f_BootstrapMethods)])
     (FBytes len).
@@ -356,31 +359,42 @@ Definition count_some {A} (l : list (option A)) : nat := length (filter (fun o =
 Definition code_parts (v : val) : option (N * N * bytes * list val * list val) :=
   match v with VSeq [VN ms; VN ml; VB code; VList exc; VList attrs] => Some (ms, ml, code, exc, attrs) | _ => None end.
 
+(* the label-carrying tables of a Code attribute, as the code-array reader takes them (Model.code_in) *)
+Definition code_in_of_state (code : bytes) (exc : list val) (st : astate) : res code_in :=
+  let frames := slot_list a_StackMapTable (st_slots st) in
+  let lvs := slot_list a_LocalVariableTable (st_slots st) in
+  let tas := slot_list a_RuntimeVisibleTypeAnnotations (st_slots st) ++ slot_list a_RuntimeInvisibleTypeAnnotations (st_slots st) in
+  do ex <- map_res exc_triple exc;
+  do ln <- map_res line_pair (slot_list a_LineNumberTable (st_slots st));
+  do ds <- map_res frame_delta frames;
+  Ok {| ci_code := code; ci_exc := ex; ci_lines := ln;
+        ci_ranges := flat_map ranges_of lvs ++ flat_map ranges_of tas;
+        ci_frames := ds;
+        ci_points := flat_map pcs_of frames ++ flat_map pcs_of tas |}.
+(* what the tree holds of a Code attribute: [ix] turns a label into the index of its instruction,
+   [attached] is the number of frames that found their instruction *)
+Definition code_desc_of (ms ml : N) (xi : list (bool * option nat * xinsn)) (last : bool) (ix : N -> option nat)
+    (exc : list val) (st : astate) (attached : nat) : code_desc :=
+  {| k_max_stack := ms; k_max_locals := ml; k_insns := xi; k_last := last;
+     k_exc := map (map_pcs ix) exc;
+     k_lines := map (map_pcs ix) (slot_list a_LineNumberTable (st_slots st));
+     k_lvs := map (map_pcs ix) (slot_list a_LocalVariableTable (st_slots st));
+     k_frames := firstn attached (map (fun f => map_pcs ix (frame_norm f)) (slot_list a_StackMapTable (st_slots st)));
+     k_vta := map (map_pcs ix) (slot_list a_RuntimeVisibleTypeAnnotations (st_slots st));
+     k_ita := map (map_pcs ix) (slot_list a_RuntimeInvisibleTypeAnnotations (st_slots st));
+     k_unknown := st_unknown st |}.
+Definition resolve_entry (p : pool) (b : bsms) (e : bool * option nat * ainsn (option nat)) : res (bool * option nat * xinsn) :=
+  do x <- resolve_insn p b (snd e); Ok (fst e, x).
+
 Definition build_code (impl : bool) (p : pool) (b : bsms) (v : val) : res code_desc :=
   match code_parts v with
   | Some (ms, ml, code, exc, attrs) =>
     do st <- fold_attrs (apply_simple impl 3) st_empty attrs;
-    let frames := slot_list a_StackMapTable (st_slots st) in
-    let lines := slot_list a_LineNumberTable (st_slots st) in
-    let lvs := slot_list a_LocalVariableTable (st_slots st) in
-    let vta := slot_list a_RuntimeVisibleTypeAnnotations (st_slots st) in
-    let ita := slot_list a_RuntimeInvisibleTypeAnnotations (st_slots st) in
-    do ex <- map_res exc_triple exc;
-    do ln <- map_res line_pair lines;
-    do ds <- map_res frame_delta frames;
-    let ci := {| ci_code := code; ci_exc := ex; ci_lines := ln;
-                 ci_ranges := flat_map ranges_of lvs ++ flat_map ranges_of (vta ++ ita);
-                 ci_frames := ds;
-                 ci_points := flat_map pcs_of frames ++ flat_map pcs_of (vta ++ ita) |} in
+    do ci <- code_in_of_state code exc st;
     do cr <- read_code_raw ci;
     let cs := sem ci cr in
-    let ix := ixf cr in
-    do xi <- map_res (fun e => do x <- resolve_insn p b (snd e); Ok (fst e, x)) (cs_insns cs);
-    Ok {| k_max_stack := ms; k_max_locals := ml; k_insns := xi; k_last := cs_last cs;
-          k_exc := map (map_pcs ix) exc; k_lines := map (map_pcs ix) lines; k_lvs := map (map_pcs ix) lvs;
-          k_frames := firstn (count_some (map (fun x => snd (fst x)) (cs_insns cs))) (map (fun f => map_pcs ix (frame_norm f)) frames);
-          k_vta := map (map_pcs ix) vta; k_ita := map (map_pcs ix) ita;
-          k_unknown := st_unknown st |}
+    do xi <- map_res (resolve_entry p b) (cs_insns cs);
+    Ok (code_desc_of ms ml xi (cs_last cs) (ixf cr) exc st (count_some (map (fun x => snd (fst x)) (cs_insns cs))))
   | None => Err
   end.
 
